@@ -1,7 +1,7 @@
 package main
 
 // C01, framing only: whatever the requests contain, the proxy writes exactly one reply for each.
-//   case line:  <n> <token> [slow|late|cross|flush] # <request> ; <request> ; ...   (slow: 600 ms nodes behind a 250 ms idle timeout; late: a node answering after 3.3 s)      (n requests, every command name the proxy or Redis knows,
+//   case line:  <n> <token> [slow|late|cross|flush|big|filtered] # <request> ; <request> ; ...   (slow: 600 ms nodes behind a 250 ms idle timeout; late: a node answering after 3.3 s)      (n requests, every command name the proxy or Redis knows,
 //               arguments with CR LF and reply look-alikes in every position)
 //   the client writes the n requests and then GET <sentinel key>, whose value is <token> (set beforehand over another
 //   connection); it reads replies until one is the bulk string <token>
@@ -9,6 +9,7 @@ package main
 
 import (
 	"bufio"
+	"bytes"
 	"fmt"
 	"net"
 	"strconv"
@@ -140,6 +141,105 @@ func crossTalk(cl *simCluster, sp *simProxy, token []byte) string {
 	return "replies=1"
 }
 
+// filteredPipeline: with compression enabled the proxy answers APPEND (and the other commands that cannot work on
+// compressed values) itself, in the backend connection's filter chain. A pipeline GET k / APPEND k x over one
+// connection: both replies arrive, in order, although the second request is never written to the node.
+func filteredPipeline(cl *simCluster, token []byte) string {
+	simProxyCompress = 64
+	sp := startRedisProxy([]string{cl.nodes[0].addr, cl.nodes[1].addr}, 0)
+	simProxyCompress = 0
+	defer stopProxy(sp)
+	sp.waitSlotsLoaded(1)
+	c := dialProxy(sp.addr)
+	defer c.close()
+	c.send(bulkArr([]byte("set"), []byte("filt:k"), token).bytes(), nil)
+	if _, err := c.recvPatient(3 * time.Second); err != nil {
+		return "SETUP-FAILED"
+	}
+	for round := 0; round < 25; round++ {
+		var buf []byte
+		buf = append(buf, bulkArr([]byte("get"), []byte("filt:k")).bytes()...)
+		buf = append(buf, bulkArr([]byte("append"), []byte("filt:k"), []byte("x")).bytes()...)
+		c.send(buf, nil)
+		v, err := c.recvPatient(2 * time.Second)
+		if err != nil {
+			return fmt.Sprintf("TIMEOUT after %d replies", 2*round)
+		}
+		if v.t != '$' || string(v.s) != string(token) {
+			return "BAD-REPLY " + v.String()
+		}
+		v, err = c.recvPatient(2 * time.Second)
+		if err != nil {
+			return fmt.Sprintf("TIMEOUT after %d replies", 2*round+1)
+		}
+		if v.t != '-' {
+			return "BAD-REPLY " + v.String()
+		}
+	}
+	return "replies=1"
+}
+
+// bigReplies: a pipeline alternating requests with small replies and replies of 9000..70000 bytes (larger than any of the
+// session's buffers), answered by nodes that take 15 ms: several replies are ready for the session's writer at once.
+// Every reply arrives in the position of its request, whole.
+func bigReplies(cl *simCluster, sp *simProxy, token []byte) string {
+	sizes := []int{9000, 20000, 8192, 70000, 16384}
+	setup := dialProxy(sp.addr)
+	defer setup.close()
+	for i, n := range sizes {
+		val := bytes.Repeat([]byte{byte('a' + i)}, n)
+		setup.send(bulkArr([]byte("set"), []byte(fmt.Sprintf("big:%d", i)), val).bytes(), nil)
+		if _, err := setup.recv(3 * time.Second); err != nil {
+			return "SETUP-FAILED"
+		}
+	}
+	setup.send(bulkArr([]byte("set"), []byte("big:small"), token).bytes(), nil)
+	if _, err := setup.recv(3 * time.Second); err != nil {
+		return "SETUP-FAILED"
+	}
+	cl.mu.Lock()
+	for _, nd := range cl.nodes {
+		nd.delayMs = 15
+	}
+	cl.mu.Unlock()
+	defer func() {
+		cl.mu.Lock()
+		for _, nd := range cl.nodes {
+			nd.delayMs = 0
+		}
+		cl.mu.Unlock()
+	}()
+	c := dialProxy(sp.addr)
+	defer c.close()
+	for round := 0; round < 4; round++ {
+		var buf []byte
+		var want []int // -1: the small value, otherwise the index of the big one
+		for i := range sizes {
+			buf = append(buf, bulkArr([]byte("get"), []byte("big:small")).bytes()...)
+			want = append(want, -1)
+			buf = append(buf, bulkArr([]byte("get"), []byte(fmt.Sprintf("big:%d", (i+round)%len(sizes)))).bytes()...)
+			want = append(want, (i+round)%len(sizes))
+		}
+		buf = append(buf, bulkArr([]byte("get"), []byte("big:small")).bytes()...)
+		want = append(want, -1)
+		c.send(buf, nil)
+		for k, w := range want {
+			v, err := c.recvPatient(4 * time.Second)
+			if err != nil {
+				return fmt.Sprintf("TIMEOUT after %d replies", k)
+			}
+			if w == -1 {
+				if v.t != '$' || string(v.s) != string(token) {
+					return fmt.Sprintf("BAD-REPLY in position %d: expected the small value, got a %c of %d bytes", k, v.t, len(v.s))
+				}
+			} else if v.t != '$' || len(v.s) != sizes[w] || v.s[0] != byte('a'+w) || v.s[len(v.s)-1] != byte('a'+w) {
+				return fmt.Sprintf("BAD-REPLY in position %d: expected %d bytes of %c, got a %c of %d bytes", k, sizes[w], 'a'+w, v.t, len(v.s))
+			}
+		}
+	}
+	return "replies=1"
+}
+
 func init() {
 	register("c01frame", func() {
 		cases, impl := create("cases.txt"), create("impl.txt")
@@ -166,6 +266,12 @@ func init() {
 			sp := spFast
 			if len(f) > 2 && f[2] == "flush" {
 				return slowFlush(token)
+			}
+			if len(f) > 2 && f[2] == "filtered" {
+				return filteredPipeline(cl, token)
+			}
+			if len(f) > 2 && f[2] == "big" {
+				return bigReplies(cl, spFast, token)
 			}
 			if len(f) > 2 && f[2] == "cross" {
 				// a connection goes away with forty requests still on their way to slow nodes; another connection keeps
@@ -259,6 +365,8 @@ func init() {
 		emit(fmt.Sprintf("0 tok%d_late late # -", *fSeed))
 		emit(fmt.Sprintf("0 tok%d_cross cross # -", *fSeed))
 		emit(fmt.Sprintf("0 tok%d_flush flush # -", *fSeed))
+		emit(fmt.Sprintf("0 tok%d_big big # -", *fSeed))
+		emit(fmt.Sprintf("0 tok%d_filtered filtered # -", *fSeed))
 		// every command name once with hostile arguments, then random sequences
 		mk := func(name string) string {
 			args := [][]byte{mixCase(r, name)}
